@@ -12,6 +12,7 @@ package main
 import (
 	"os"
 	"fmt"
+	"go/token"
 	"go/types"
 	"sort"
 	"strings"
@@ -487,11 +488,88 @@ func ruleStaleIndex(p *Prog, r *Report, pkgs map[string]bool) {
 // mustCallsOf: module callees (closures by the variable they are bound to) that are called on
 // every path from the entry of fn to a normal return: some call of the callee lies in a block
 // that dominates every returning block.
+// isFailureReturn: the function's last result is an error and this return hands out a value
+// that a dominating test has just found non-nil, or a freshly made error (fmt.Errorf / errors.New).
+func isFailureReturn(rt *ssa.Return) bool {
+	n := len(rt.Results)
+	if n == 0 {
+		return false
+	}
+	v := rt.Results[n-1]
+	if !isErrorType(v.Type()) {
+		return false
+	}
+	// a function with defers returns through a result cell: what was stored into it in this block
+	if u, ok := v.(*ssa.UnOp); ok && u.Op == token.MUL {
+		if al, ok := u.X.(*ssa.Alloc); ok {
+			for _, in := range rt.Block().Instrs {
+				if st, ok := in.(*ssa.Store); ok && st.Addr == ssa.Value(al) {
+					v = st.Val
+				}
+			}
+		}
+	}
+	if c, ok := v.(*ssa.Const); ok {
+		return !c.IsNil()
+	}
+	if mi, ok := v.(*ssa.MakeInterface); ok {
+		_ = mi
+		return true
+	}
+	if call, ok := v.(*ssa.Call); ok {
+		if f := call.Common().StaticCallee(); f != nil {
+			switch rawShortName(f) {
+			case "fmt.Errorf", "errors.New":
+				return true
+			}
+		}
+	}
+	fn := rt.Parent()
+	for _, b := range fn.Blocks {
+		i := ifOf(b)
+		if i == nil {
+			continue
+		}
+		bo, ok := i.Cond.(*ssa.BinOp)
+		if !ok || (bo.Op != token.NEQ && bo.Op != token.EQL) {
+			continue
+		}
+		var other ssa.Value
+		if bo.X == v {
+			other = bo.Y
+		} else if bo.Y == v {
+			other = bo.X
+		} else {
+			continue
+		}
+		if c, ok := other.(*ssa.Const); !ok || !c.IsNil() {
+			continue
+		}
+		k := 0 // edge on which v != nil
+		if bo.Op == token.EQL {
+			k = 1
+		}
+		if edgeDominates(b, k, rt.Block()) {
+			return true
+		}
+	}
+	return false
+}
+
+func isErrorType(t types.Type) bool {
+	return types.TypeString(t, nil) == "error"
+}
+
 func mustCallsOf(p *Prog, fn *ssa.Function) []string {
 	var rets []*ssa.BasicBlock
 	for _, b := range fn.Blocks {
 		if n := len(b.Instrs); n > 0 {
-			if _, ok := b.Instrs[n-1].(*ssa.Return); ok {
+			if rt, ok := b.Instrs[n-1].(*ssa.Return); ok {
+				// not the block that runs after a recovered panic, and not a return that hands
+				// out the error it has just tested (`if err != nil { return err }`)
+				if b == fn.Recover || isFailureReturn(rt) {
+					continue
+				}
 				rets = append(rets, b)
 			}
 		}
